@@ -204,6 +204,11 @@ def rule_encoder_state_reset(ctx):
                     if s.si is not None and nd["k"] == "assign" and nd["dst"]["p"] == ["*"]:
                         if any(o.kind == "call" and callee_matches(o.data, r"cell::RefCell::borrow_mut$") and fld in self_fields_read(b, o.site.node["args"][0]) for o in origins(b, {"l": nd["dst"]["l"], "p": []}, transparent=("core::ops::deref::DerefMut::deref_mut",))):
                             resets.append(s)
+                # `self.fld.set(v)` / `.replace(v)` on a Cell
+                _CELLSET = r"cell::Cell::(set|replace)$|cell::RefCell::replace$"
+                for s in b.calls():
+                    if callee_matches(callee_of(s), _CELLSET) and s.node["args"] and fld in self_fields_read(b, s.node["args"][0]):
+                        resets.append(s)
                 # ... or a call of a helper method of the encoder that does the whole-value store on all of its paths
                 # (`self.reset_aux_vars(..)`)
                 for s in b.calls():
@@ -216,6 +221,9 @@ def rule_encoder_state_reset(ctx):
                         if s2.si is not None and nd2["k"] == "assign" and nd2["dst"]["p"] == ["*"] and t.postdominates(s2, (0, -1)):
                             if any(o.kind == "call" and callee_matches(o.data, r"cell::RefCell::borrow_mut$") and fld in self_fields_read(t, o.site.node["args"][0]) for o in origins(t, {"l": nd2["dst"]["l"], "p": []}, transparent=("core::ops::deref::DerefMut::deref_mut",))):
                                 resets.append(s)
+                    for s2 in t.calls():
+                        if callee_matches(callee_of(s2), _CELLSET) and s2.node["args"] and fld in self_fields_read(t, s2.node["args"][0]) and t.postdominates(s2, (0, -1)):
+                            resets.append(s)
                 # other uses: any read of self.fld (clones handed to helpers, borrows)
                 for s in b.sites():
                     nd = s.node
